@@ -115,6 +115,17 @@ CHECKS["C05"] = dict(
     design="DESIGN.md §5 C05",
     technique="Coq proof (statement-list induction, dictionary last-wins lemma, literal negation lemma) + differential correspondence + expanded-file oracle")
 
+CHECKS["C06"] = dict(
+    text=("Theorems over the model of the MODEL_NAME terminal (ordered alternation of literal names followed by a zero-width boundary, as "
+          "Python's re tries it; the alternatives are REGENERATED each run from what Lark compiles for the published list and for this "
+          "run's user-registered lists, and shown equal to the names sorted by decreasing length with priority 2): every registered name, "
+          "followed by anything that does not continue a word, is matched as itself in full (never as a shorter registered name, never "
+          "extended); a word that is not a registered name and does not start with one followed by a non-word character is not matched "
+          "(so it is lexed as a label and rejected as an undefined model by the model step). Unbounded in names, lists and following text. "
+          "PARTIAL: which terminal the contextual lexer tries where is Lark's, tied by the parse() correspondence."),
+    design="DESIGN.md §5 C06",
+    technique="Coq proof (sorted-by-length alternation lemma, prefix/boundary case analysis) over a regenerated lexer table + differential correspondence with parse()")
+
 CHECKS["C03"] = dict(
     text=("Theorems over the model of the CDecay pass (Lark visitor with write-back cache into the shared ChargeConj dictionary, "
           "daughters line by line then the mother): under well-formed ChargeConj pairs the pass appends, for every CDecay X without "
